@@ -86,7 +86,7 @@ def walk(w, rnd, profile, steps, opts):
     gens = 1; fires = [0]; cur_ka = [0]
     inbound_ids = [5, 6, 7]
     for _ in range(steps):
-        p = w.p[a]; st = type(p.state).__name__; tr = w.t[a].phase
+        p = w.p[a]; st = W.state_name(p); tr = w.t[a].phase
         r = rnd.random()
         choices = []
         wt = opts.get("wt", {})
@@ -183,7 +183,12 @@ def walk(w, rnd, profile, steps, opts):
         elif name == "disconnect":
             do(w.disconnect(a))
         elif name == "pokeid":
-            do(w.pokeid(rnd.randint(65528, 65535)))
+            inuse = w.pending_mids()
+            if inuse and rnd.random() < 0.5:      # the counter placed so that the next identifiers run into those of unfinished requests
+                target = rnd.choice(inuse) - rnd.choice([0, 0, 1, 2])
+                do(w.pokeid((target - 2) % 65535 + 1))
+            else:
+                do(w.pokeid(rnd.randint(65528, 65535)))
         elif name == "garbage":
             if tr in ("open", "closing"):
                 do(w.recv(a, bytes([rnd.choice([0x00, 0xF0, 0x10, 0x82, 0xE0, 0x30, 0x40, 0x20, 0x90]), rnd.choice([0, 1, 2, 3]), 0, 0, 0][: rnd.randint(2, 5)])))
